@@ -24,17 +24,57 @@ Definition normalise_top (d : list (key * pyval)) : list (key * pyval) :=
 
 Fixpoint nodup_b (l : list string) : bool :=
   match l with [] => true | x :: r => negb (smem x r) && nodup_b r end.
+(* strictly increasing in code-point order: the canonical member order of a represented dict *)
+Fixpoint sorted_b (l : list string) : bool :=
+  match l with
+  | x :: (y :: _) as r => String.ltb x y && sorted_b r
+  | _ => true
+  end.
+
+(* values an array of a dtype can hold *)
+Definition int_range (b : base) : option (Z * Z) :=
+  match b with
+  | BI8 => Some (- 2 ^ 7, 2 ^ 7 - 1) | BI16 => Some (- 2 ^ 15, 2 ^ 15 - 1)
+  | BI32 => Some (- 2 ^ 31, 2 ^ 31 - 1) | BI64 => Some (- 2 ^ 63, 2 ^ 63 - 1)
+  | BU8 => Some (0, 2 ^ 8 - 1) | BU16 => Some (0, 2 ^ 16 - 1)
+  | BU32 => Some (0, 2 ^ 32 - 1) | BU64 => Some (0, 2 ^ 64 - 1)
+  | _ => None
+  end.
+(* binary float format: precision, exponent of the smallest subnormal, overflow exponent *)
+Record ffmt := mkffmt { f_prec : Z; f_emin : Z; f_emax : Z }.
+Definition float_fmt (b : base) : option ffmt :=
+  match b with
+  | BF16 => Some (mkffmt 11 (-24) 16) | BF32 => Some (mkffmt 24 (-149) 128)
+  | BF64 => Some (mkffmt 53 (-1074) 1024) | _ => None
+  end.
+(* canonical token (mantissa odd, or 0 with exponent 0) of a value of the format *)
+Definition ftok_ok (F : ffmt) (f : ftok) : bool :=
+  match f with
+  | FFin _ m e => if m =? 0 then e =? 0
+                  else (0 <? m) && Z.odd m && (m <? 2 ^ f_prec F) && (f_emin F <=? e) &&
+                       (e + Z.log2 m + 1 <=? f_emax F)
+  | _ => true
+  end.
+Definition scalar_ok (dt : dtype) (x : scalar) : bool :=
+  match x with
+  | SBool _ => match dbase dt with BBool => true | _ => false end
+  | SInt z => match int_range (dbase dt) with Some (lo, hi) => (lo <=? z) && (z <=? hi) | None => false end
+  | SFlt f => match float_fmt (dbase dt) with Some F => ftok_ok F f | None => false end
+  end.
 
 (* the values the statement quantifies over (reading of DESIGN.md C18): nested dictionaries have
-   distinct string keys other than the two markers the decoder reserves; arrays have a dtype NumPy
-   can hold, a non-negative shape and as many elements as the shape says *)
+   distinct string keys (represented in sorted order) other than the two markers the decoder
+   reserves; arrays and NumPy scalars have a dtype NumPy can hold and elements of that dtype, arrays
+   a non-negative shape and as many elements as the shape says *)
 Fixpoint wfb (v : pyval) : bool :=
   match v with
-  | PB64 _ _ => false
   | PList l => forallb wfb l
-  | PDict l => nodup_b (map fst l) && negb (smem k_ndarray (map fst l)) && negb (smem k_qba (map fst l)) &&
+  | PDict l => nodup_b (map fst l) && sorted_b (map fst l) &&
+               negb (smem k_ndarray (map fst l)) && negb (smem k_qba (map fst l)) &&
                forallb (fun kv => wfb (snd kv)) l
-  | PArr dt shape _ el => dtype_ok dt && forallb (fun x => 0 <=? x) shape && (zprod shape =? zlen el)
+  | PNp dt x => dtype_ok dt && scalar_ok dt x
+  | PArr dt shape _ el => dtype_ok dt && forallb (fun x => 0 <=? x) shape && (zprod shape =? zlen el) &&
+                          forallb (scalar_ok dt) el
   | _ => true
   end.
 
@@ -53,8 +93,19 @@ Fixpoint key_mem (k : key) (l : list key) : bool :=
 Fixpoint key_nodup_b (l : list key) : bool :=
   match l with [] => true | x :: r => negb (key_mem x r) && key_nodup_b r end.
 
+(* a top-level dictionary: distinct integer / non-integer-like string keys, represented in the order
+   of their stringified forms *)
 Definition wf_top_b (d : list (key * pyval)) : bool :=
-  key_nodup_b (map fst d) && forallb key_ok (map fst d) && forallb (fun kv => wfb (snd kv)) d.
+  key_nodup_b (map fst d) && forallb key_ok (map fst d) &&
+  sorted_b (map (fun kv => stringify_key (fst kv)) d) && forallb (fun kv => wfb (snd kv)) d.
+
+(* trees the text-layer oracle is asked about: object members in sorted key order *)
+Fixpoint jsorted (t : jtree) : bool :=
+  match t with
+  | JList l => forallb jsorted l
+  | JObj l => sorted_b (map fst l) && forallb (fun kv => jsorted (snd kv)) l
+  | _ => true
+  end.
 
 (* ---- equality tests ---- *)
 Definition ftok_eqb (a b : ftok) : bool :=
@@ -97,7 +148,6 @@ Fixpoint pyval_eqb (a b : pyval) {struct a} : bool :=
   | PInt x, PInt y => x =? y
   | PFloat x, PFloat y => ftok_eqb x y
   | PStr x, PStr y => String.eqb x y
-  | PB64 d x, PB64 d' y => dtype_eqb d d' && list_eqb scalar_eqb x y
   | PList x, PList y =>
       (fix go (x y : list pyval) {struct x} : bool :=
          match x, y with
@@ -152,15 +202,22 @@ Definition expected_raw (v : value) : cell :=
 Definition nonnumeric (s : string) : bool :=
   negb (String.eqb s "") &&
   match py_int (s2l s), py_float (s2l s) with None, None => true | _, _ => false end.
+(* cells the csv layer transports unchanged: no NUL, no line break (files are read with universal
+   newlines) *)
+Definition char_csv_ok (c : ascii) : bool := negb ((code c =? 0) || (code c =? 10) || (code c =? 13)).
+Definition ctext_ok (t : ctext) : bool :=
+  match t with CT s => forallb char_csv_ok (s2l s) | CRepr _ => true end.
+Definition str_csv_ok (s : string) : bool := forallb char_csv_ok (s2l s).
 Definition value_ok (v : value) : bool :=
   match v with
-  | VStr s => nonnumeric s
+  | VStr s => nonnumeric s && str_csv_ok s
   | VFloat (FFin _ m _) => 0 <=? m
   | _ => true
   end.
 Definition no_tab (s : string) : bool := negb (existsb (Ascii.eqb ch_tab) (s2l s)).
+(* a row: a dictionary (distinct field names without tab / line break) of admissible values *)
 Definition row_ok (r : row) : bool :=
-  nodup_b (map fst r) && forallb (fun kv => no_tab (fst kv) && value_ok (snd kv)) r.
+  nodup_b (map fst r) && forallb (fun kv => no_tab (fst kv) && str_csv_ok (fst kv) && value_ok (snd kv)) r.
 
 (* the declarative statement for one written row r and the row o read back *)
 Definition Row_Spec (first : option string) (excl : list string) (n : Z) (r : row)
@@ -252,3 +309,22 @@ Definition py_ok (d : list (string * pyval)) : bool :=
   nodup_b (map fst d) && forallb (fun kv => py_key_ok (fst kv) && plain (snd kv) && wfb (snd kv)) d.
 Definition py_spec_b (d out : list (string * pyval)) : bool :=
   list_eqb (fun a b => String.eqb (fst a) (fst b) && pyval_eqb (snd a) (snd b)) out d.
+
+(* ---------------------------------------------------------------------------------------------- *)
+(* what the theorems assume of the oracles (and nothing else)                                     *)
+(* ---------------------------------------------------------------------------------------------- *)
+Record Codec_OK (C : codec) : Prop := {
+  b64_rt : forall b, b64dec C (b64enc C b) = Some b;
+  buf_rt : forall dt el, dtype_ok dt = true -> forallb (scalar_ok dt) el = true ->
+                         frombuffer C dt (tobytes C dt el) = Some el }.
+
+Record Text_OK {T : Type} (L : textlayer T) : Prop := {
+  text_rt : forall t, jsorted t = true -> jparse L (jprint L t) = Some t;
+  text_ne : forall t, tempty L (jprint L t) = false }.
+
+Record Csv_OK {T : Type} (V : csvlayer T) : Prop := {
+  csv_rt : forall dl lines, forallb (forallb ctext_ok) lines = true ->
+                            csv_read V dl (csv_write V dl lines) = Some lines;
+  csv_tab : forall dl h rest, forallb ctext_ok h = true ->
+              first_line_tab V (csv_write V dl (h :: rest)) =
+              (delim_eqb dl Tab && (2 <=? zlen h)) || existsb has_tab h }.
